@@ -8,7 +8,7 @@
    Z.to_nat (a size < 1 raises ValueError on both sides).  Bit lists are lists of the ints 0/1 in the implementation
    and lists of booleans in the model: the link of value_from_bitlist goes through `map b2z`. *)
 From QV Require Import Translate.PyPrelude Translate.PyPrelude_proofs Translate.C15Aux.
-From QV Require Import Jssp.DomainWall Jssp.Encoder Jssp.Encoder_proofs Jssp.Decoded_proofs Jssp.Grouping_proofs.
+From QV Require Import Jssp.DomainWall Jssp.Encoder Jssp.Energy Jssp.Valid_proofs Jssp.Encoder_proofs Jssp.Decoded_proofs Jssp.Grouping_proofs.
 From QVGen Require Import C15Gen.
 Open Scope Z_scope.
 
@@ -1219,3 +1219,191 @@ Proof.
   destruct (pair_thread overlap_plan _ acc st) as [[a s]|err]; reflexivity.
 Qed.
 Print Assumptions link_Enc_ham_overlap_terms.
+
+(* ------------------------------------------------------------------ _prepare_hamiltonian as a whole (success case)
+   pair_thread_model glues the threaded pair terms to the staged model (plans, then operators, then the bumped count table) on
+   states whose count dict agrees with a table; link_Enc_prepare_hamiltonian composes the five translated pieces in the method's
+   order from the state _prepare_encoding leaves: whenever the model's Hamiltonian exists (Encoder.hamiltonian_of = Ok H) the
+   pieces store exactly Some H and mark the Hamiltonian as prepared.  Not part of the statement: the two initialisations
+   `overlap_terms: list = []` / `variable_viability_terms: list = []` between the fragments (passed as []), that Python runs
+   the pieces in this order with nothing in between (the fragments are addressed by their neighbours, see the README), and the
+   error cases (when several stages fail, model and code may report different ones first; the differential check compares them). *)
+(* a plan function whose plans are about the two variables it was given, with penalised start times taken from their values *)
+Definition plan_shape (plan_of : dwvar -> dwvar -> result pterm) : Prop :=
+  forall v1 v2 p, plan_of v1 v2 = Ok p ->
+    p = PZero \/ exists pairs, p = PPairs v1 v2 pairs /\ forall q, In q pairs -> In (fst q) (v_values v1) /\ In (snd q) (v_values v2).
+
+Lemma prec_plan_shape : plan_shape prec_plan.
+Proof.
+  intros v1 v2 p. unfold prec_plan. destruct (vmax v1); cbn [bind]; [|discriminate]. destruct (vmin v2); cbn [bind]; [|discriminate].
+  destruct (_ <=? _); intros [= <-]; [now left|right]. eexists; split; [reflexivity|]. intros q. apply prec_pairs_in.
+Qed.
+
+Lemma overlap_plan_shape : plan_shape overlap_plan.
+Proof.
+  intros v1 v2 p. unfold overlap_plan. destruct (vmax v1); cbn [bind]; [|discriminate]. destruct (vmin v2); cbn [bind]; [|discriminate].
+  destruct (_ <=? _); [intros [= <-]; now left|].
+  destruct (vmax v2); cbn [bind]; [|discriminate]. destruct (vmin v1); cbn [bind]; [|discriminate].
+  destruct (_ <=? _); intros [= <-]; [now left|right]. eexists; split; [reflexivity|]. intros q. apply overlap_pairs_in.
+Qed.
+
+(* SUCCESS CASE GLUE: on a state whose count dict agrees with a table f, threading the pair terms yields exactly the staged
+   model — the plans, then their operators, then the table bumped by all plans — and leaves everything but the counts alone *)
+Lemma pair_thread_model e plan_of : ids_match (e_vars e) -> plan_shape plan_of ->
+  forall pairs acc st f plans terms,
+  (forall a b, In (a, b) pairs -> In a (e_vars e) /\ In b (e_vars e)) ->
+  counts_agree (st_counts st) f (e_vars e) ->
+  mapM (fun ab => plan_of (fst ab) (snd ab)) pairs = Ok plans ->
+  mapM (plan_term (Z.to_nat (st_nq st))) plans = Ok terms ->
+  exists st', pair_thread plan_of pairs acc st = Ok ((acc ++ terms)%list, st')
+    /\ st_mo st' = st_mo st /\ st_vars st' = st_vars st /\ st_nq st' = st_nq st /\ st_prepared st' = st_prepared st
+    /\ counts_agree (st_counts st') (fold_left plan_bump plans f) (e_vars e).
+Proof.
+  intros Hid Hshape. induction pairs as [|[v1 v2] r IH]; intros acc st f plans terms Hin Hag Hp Ht.
+  - cbn [mapM] in Hp. injection Hp as <-. cbn [mapM] in Ht. injection Ht as <-. exists st. rewrite app_nil_r. repeat split. exact Hag.
+  - cbn [mapM fst snd] in Hp. destruct (plan_of v1 v2) as [p|] eqn:Ep; cbn [bind] in Hp; [|discriminate].
+    destruct (mapM _ r) as [ps|] eqn:Er; cbn [bind] in Hp; [|discriminate]. injection Hp as <-.
+    cbn [mapM] in Ht. destruct (plan_term _ p) as [t|] eqn:Etm; cbn [bind] in Ht; [|discriminate].
+    destruct (mapM _ ps) as [ts|] eqn:Ets; cbn [bind] in Ht; [|discriminate]. injection Ht as <-.
+    cbn [pair_thread fst snd]. unfold pair_result. rewrite Ep. cbn [bind]. rewrite Etm. cbn [bind fst snd].
+    destruct (Hin v1 v2 (or_introl eq_refl)) as [H1 H2].
+    set (st1 := set_counts st (dict_plan_bump (v_op v1) (v_op v2) p (st_counts st))).
+    assert (Hag1 : counts_agree (st_counts st1) (plan_bump f p) (e_vars e)).
+    { destruct (Hshape v1 v2 p Ep) as [->|[prs [-> Hprs]]]; [exact Hag|].
+      unfold st1, set_counts. cbn [st_counts]. now apply dict_plan_bump_agree. }
+    destruct (IH (acc ++ [t])%list st1 (plan_bump f p) ps ts) as [st' [Hth [Hmo [Hv [Hn [Hpr Hc]]]]]];
+      [intros a b Hab; apply Hin; now right | exact Hag1 | reflexivity | exact Ets |].
+    exists st'. rewrite Hth, <- app_assoc. cbn [app fold_left]. repeat split; assumption.
+Qed.
+
+(* THE WHOLE METHOD, success case: the five translated pieces of _prepare_hamiltonian, run in the method's order from the state
+   _prepare_encoding leaves, store exactly the model's Hamiltonian whenever the model's Hamiltonian exists. *)
+Theorem link_Enc_prepare_hamiltonian_composed : forall I L e P H hs,
+  prepare_encoding I L = Ok e -> NoDup (map v_op (e_vars e)) -> ids_match (e_vars e) ->
+  counts_agree (st_counts (state_of_enc e)) ct_zero (e_vars e) ->
+  hamiltonian_of false P L e = Ok H ->
+  (do r1 <- gen_Enc_ham_precedence_terms I L (state_of_enc e);
+   do r2 <- gen_Enc_ham_overlap_terms I L [] (snd r1);
+   do r3 <- gen_Enc_ham_viability_terms I L [] (snd r2);
+   do r4 <- gen_Enc_ham_pads_and_opt I L (fst r1) (fst r2) (snd r3);
+   do u <- gen_Enc_ham_weighted_sum (p_enc P) (p_overlap P) (p_prec P) (p_opt P) (p_share P)
+             (fst (fst (fst (fst r4)))) (snd (fst (fst (fst r4)))) (fst r3) (snd (fst (fst r4))) (snd (fst r4)) hs;
+   Ok (hs_ham (snd u), hs_prepared (snd u)))
+  = Ok (Some H, true).
+Proof.
+  intros I L e P H hs He Hnd Hid Hag0 HH.
+  rewrite hamiltonian_of_tail in HH. cbv zeta in HH.
+  destruct (prec_plans e) as [pplans|] eqn:Epp; cbn [bind] in HH; [|discriminate].
+  destruct (mapM (plan_term (e_nq e)) pplans) as [pterms|] eqn:Ept; cbn [bind] in HH; [|discriminate].
+  destruct (overlap_plans e) as [oplans|] eqn:Eop; cbn [bind] in HH; [|discriminate].
+  destruct (mapM (plan_term (e_nq e)) oplans) as [oterms|] eqn:Eot; cbn [bind] in HH; [|discriminate].
+  destruct (mapM (weighted_viability (count_table (pplans ++ oplans)) (e_nq e)) (e_vars e)) as [vterms|] eqn:Evt; cbn [bind] in HH; [|discriminate].
+  set (st0 := state_of_enc e).
+  assert (Hr0 : reached_from_prepared e st0) by apply reached_prepared.
+  assert (Hq0 : Z.to_nat (st_nq st0) = e_nq e) by (unfold st0; rewrite (st_nq_state_of_enc _ _ _ He); apply Nat2Z.id).
+  (* 1. precedence terms *)
+  rewrite (link_Enc_ham_precedence_terms I L e st0 He Hnd Hr0).
+  unfold prec_plans in Epp.
+  destruct (pair_thread_model e prec_plan Hid prec_plan_shape (concat (map consecutive (e_jobs e))) [] st0 ct_zero pplans pterms)
+    as [st1 [Ht1 [Hmo1 [Hv1 [Hn1 [Hp1 Hag1]]]]]];
+    [ intros a b Hab; apply in_concat in Hab as [prs [Hprs Hab]]; apply in_map_iff in Hprs as [vs [<- Hvs]];
+      destruct (consecutive_In vs a b Hab); split; apply in_concat; exists vs; split; assumption
+    | exact Hag0 | exact Epp | rewrite Hq0; exact Ept |].
+  rewrite Ht1. cbn [bind fst snd app].
+  assert (Hr1 : reached_from_prepared e st1) by (eapply pair_thread_reached; [exact Hr0|exact Ht1]).
+  (* 2. overlap terms *)
+  rewrite (link_Enc_ham_overlap_terms I L e st1 [] Hnd Hr1 Hmo1).
+  unfold overlap_plans in Eop.
+  destruct (pair_thread_model e overlap_plan Hid overlap_plan_shape
+              (concat (map (fun ml => if (List.length (snd ml) <? 2)%nat then [] else combs2 (snd ml)) (machine_ops (e_vars e))))
+              [] st1 (fold_left plan_bump pplans ct_zero) oplans oterms)
+    as [st2 [Ht2 [Hmo2 [Hv2 [Hn2 [Hp2 Hag2]]]]]];
+    [ intros a b Hab; apply in_concat in Hab as [prs [Hprs Hab]]; apply in_map_iff in Hprs as [[m l] [<- Hml]]; cbn [snd] in Hab;
+      destruct (List.length l <? 2)%nat; [contradiction|]; destruct (combs2_In l a b Hab) as [Ha Hb];
+      split; [exact (proj1 (machine_ops_members (e_vars e) m l Hml a Ha)) | exact (proj1 (machine_ops_members (e_vars e) m l Hml b Hb))]
+    | exact Hag1 | exact Eop | rewrite Hn1, Hq0; exact Eot |].
+  rewrite Ht2. cbn [bind fst snd app].
+  assert (Hr2 : reached_from_prepared e st2) by (eapply pair_thread_reached; [exact Hr1|exact Ht2]).
+  (* 3. weighted viability terms *)
+  assert (Hf : fold_left plan_bump oplans (fold_left plan_bump pplans ct_zero) = count_table (pplans ++ oplans))
+    by (unfold count_table; now rewrite fold_left_app).
+  rewrite Hf in Hag2.
+  rewrite (link_Enc_ham_viability_terms_after_prepare I L e st2 _ [] He Hnd Hr2 Hag2), Evt. cbn [bind fst snd app].
+  (* 4. + 5. paddings, optimisation terms, weighted sum *)
+  rewrite (link_Enc_ham_pads_and_opt I L e st2 pterms oterms He Hnd Hr2).
+  unfold ham_tail in HH. cbv zeta in HH.
+  destruct (pad_empty false (e_nq e) pterms) as [p'|] eqn:E1; cbn [bind] in HH |- *; [|discriminate].
+  destruct (pad_empty false (e_nq e) oterms) as [o'|] eqn:E2; cbn [bind] in HH |- *; [|discriminate].
+  destruct (makespan_term e L) as [mk|] eqn:E3; cbn [bind] in HH |- *; [|discriminate].
+  destruct (early_start_term e) as [es|] eqn:E4; cbn [bind fst snd] in HH |- *; [|discriminate].
+  rewrite link_Enc_ham_weighted_sum.
+  destruct (sum_ops p') as [sp|]; cbn [bind] in HH |- *; [|discriminate].
+  destruct (sum_ops o') as [so|]; cbn [bind] in HH |- *; [|discriminate].
+  destruct (sum_ops vterms) as [sv|]; cbn [bind] in HH |- *; [|discriminate].
+  injection HH as <-. reflexivity.
+Qed.
+Print Assumptions link_Enc_prepare_hamiltonian_composed.
+
+(* ---- the two hypotheses about the prepared state, discharged *)
+Lemma NoDup_map_inj {A B} (g : A -> B) : forall l a b, NoDup (map g l) -> In a l -> In b l -> g a = g b -> a = b.
+Proof.
+  induction l as [|x r IH]; intros a b Hnd Ha Hb E; [contradiction|]. cbn [map] in Hnd. inversion Hnd as [|? ? Hnot Hnd']; subst.
+  destruct Ha as [->|Ha], Hb as [->|Hb]; [reflexivity| | |now apply IH].
+  - exfalso. apply Hnot. rewrite E. now apply in_map.
+  - exfalso. apply Hnot. rewrite <- E. now apply in_map.
+Qed.
+
+Lemma ids_match_prepared I L e : prepare_encoding I L = Ok e -> NoDup (map v_op (e_vars e)) -> ids_match (e_vars e).
+Proof.
+  intros He Hnd. pose proof (prepare_encoding_Ok_limit _ _ _ He) as Hlim.
+  rewrite (prepare_encoding_explicit _ _ Hlim) in He. injection He as <-. cbn [e_vars e_jobs] in *.
+  set (vs := concat (vars_of_jobs L 0 0 (inst_jobs I))) in *.
+  assert (Hids : NoDup (map v_id vs)).
+  { unfold vs. rewrite (layout_ids _ _ _ (vars_of_jobs_layout L (inst_jobs I) 0 0)). apply seq_NoDup. }
+  intros v v' Hv Hv'.
+  destruct (op_eqb (v_op v) (v_op v')) eqn:Eo; destruct (Nat.eqb_spec (v_id v) (v_id v')) as [Ei|Ei]; try reflexivity.
+  - apply op_eqb_eq in Eo. exfalso. apply Ei. now rewrite (NoDup_map_inj v_op vs v v' Hnd Hv Hv' Eo).
+  - rewrite (NoDup_map_inj v_id vs v v' Hids Hv Hv' Ei) in Eo. rewrite (proj2 (op_eqb_eq _ _) eq_refl) in Eo. discriminate.
+Qed.
+
+(* every count is 0 after _prepare_encoding *)
+Definition all_zero (c : counts) : Prop := forall k x, py_dict_get ckey_eqb c k = Ok x -> x = 0.
+
+Lemma all_zero_set c k : all_zero c -> all_zero (py_dict_set ckey_eqb c k 0).
+Proof.
+  intros Hz k' x. rewrite (dict_get_set ckey_eqb ckey_eqb_eq). destruct (ckey_eqb k k'); [now intros [= <-]|apply Hz].
+Qed.
+
+Lemma all_zero_counts_init o vals : forall c, all_zero c -> all_zero (counts_init c o vals).
+Proof. unfold counts_init. induction vals as [|t r IH]; intros c Hz; [exact Hz|]. cbn [fold_left]. apply IH, all_zero_set, Hz. Qed.
+
+Lemma all_zero_add_vars vs : forall st, all_zero (st_counts st) -> all_zero (st_counts (fold_left add_var vs st)).
+Proof.
+  induction vs as [|v r IH]; intros st Hz; [exact Hz|]. cbn [fold_left]. apply IH. cbn [add_var st_counts]. now apply all_zero_counts_init.
+Qed.
+
+Lemma counts_agree_prepared e : NoDup (map v_op (e_vars e)) -> counts_agree (st_counts (state_of_enc e)) ct_zero (e_vars e).
+Proof.
+  intros Hnd v t Hv Ht.
+  destruct (prepared_state_ok e v Hnd Hv) as [_ Hc]. specialize (Hc t Ht).
+  destruct (py_dict_get ckey_eqb (st_counts (state_of_enc e)) (v_op v, t)) as [x|err] eqn:Eg; [|discriminate].
+  assert (Hz : all_zero (st_counts (state_of_enc e))).
+  { unfold state_of_enc, set_prepared. cbn [st_counts]. apply all_zero_add_vars. intros k y. cbn. discriminate. }
+  rewrite (Hz _ _ Eg). reflexivity.
+Qed.
+
+Theorem link_Enc_prepare_hamiltonian : forall I L e P H hs,
+  prepare_encoding I L = Ok e -> NoDup (map v_op (e_vars e)) -> hamiltonian_of false P L e = Ok H ->
+  (do r1 <- gen_Enc_ham_precedence_terms I L (state_of_enc e);
+   do r2 <- gen_Enc_ham_overlap_terms I L [] (snd r1);
+   do r3 <- gen_Enc_ham_viability_terms I L [] (snd r2);
+   do r4 <- gen_Enc_ham_pads_and_opt I L (fst r1) (fst r2) (snd r3);
+   do u <- gen_Enc_ham_weighted_sum (p_enc P) (p_overlap P) (p_prec P) (p_opt P) (p_share P)
+             (fst (fst (fst (fst r4)))) (snd (fst (fst (fst r4)))) (fst r3) (snd (fst (fst r4))) (snd (fst r4)) hs;
+   Ok (hs_ham (snd u), hs_prepared (snd u)))
+  = Ok (Some H, true).
+Proof.
+  intros I L e P H hs He Hnd HH.
+  apply (link_Enc_prepare_hamiltonian_composed I L e P H hs He Hnd (ids_match_prepared I L e He Hnd) (counts_agree_prepared e Hnd) HH).
+Qed.
+Print Assumptions link_Enc_prepare_hamiltonian.
